@@ -244,6 +244,36 @@ func init() {
 		in.uniques = append(in.uniques, uniqueEnt{t, a[0], l})
 		return StructV{l}
 	})
+	// math/rand: a draw is an arbitrary value in the documented range
+	reg("math/rand.Int", func(in *Interp, fr *frame, fn *ssa.Function, a []Value, site string) Value {
+		name := in.e.freshName("rand.Int")
+		v := VarRange(name, 64, 0, 1<<63-1)
+		in.e.AssumeFresh(rawRange(v, 0, 1<<63-1))
+		in.e.inputs = append(in.e.inputs, inputDecl{name: name, kind: "int", t: v, w: 64})
+		return v
+	})
+	reg("math/rand.Intn", func(in *Interp, fr *frame, fn *ssa.Function, a []Value, site string) Value {
+		n := a[0].(*Term)
+		in.check(fr, Sgt(n, I64(0)), "invalid argument to Intn", nil)
+		name := in.e.freshName("rand.Intn")
+		var v *Term
+		if n.IsConst() {
+			v = VarRange(name, 64, 0, n.c-1)
+			in.e.AssumeFresh(rawRange(v, 0, n.c-1))
+		} else {
+			v = VarRange(name, 64, 0, n.hi)
+			in.e.AssumeFresh(rawRange(v, 0, n.hi))
+			in.e.Assume(Ult(v, n), "rand.Intn range")
+		}
+		in.e.inputs = append(in.e.inputs, inputDecl{name: name, kind: "int", t: v, w: 64})
+		return v
+	})
+	reg("math/rand.Uint32", func(in *Interp, fr *frame, fn *ssa.Function, a []Value, site string) Value {
+		name := in.e.freshName("rand.Uint32")
+		v := Var(name, 32)
+		in.e.inputs = append(in.e.inputs, inputDecl{name: name, kind: "int", t: v, w: 32})
+		return v
+	})
 	registerSyncIntrinsics(reg)
 	registerTimeIntrinsics(reg)
 	registerBinaryIntrinsics(reg)
